@@ -464,6 +464,27 @@ impl<T: hyper::rt::Read + hyper::rt::Write + Unpin> Subject for HyperSubject<T> 
 }
 
 const INCOMING: &[u8] = b"abcdefghijklmnopqrstuvwxyz0123456789";
+const SNIFF_H2: &[u8] = b"PRI * HTTP/2.0\r\n\r\nSM\r\n\r\nabcdefghijklmnopqrstuvwxyz";
+const SNIFF_H1: &[u8] = b"PRI * HTTP/1.1\r\nhost: abcdefghijklmnopqrstuvwxyz\r\n\r\n";
+
+/// Build the rewind buffer the way the server does: run the real sniffer over the scripted stream
+/// with the given answers for its own reads, then hand out what it returns.
+fn sniffed(sh: Shared, answers: &[Ans]) -> Box<dyn Subject> {
+    {
+        let mut s = sh.lock().unwrap();
+        s.answers.extend(answers.iter().copied());
+    }
+    let mut fut = Box::pin(sniffer::sniff(HSio(sh.clone())));
+    for _ in 0..200 {
+        if let Poll::Ready(r) = noop_cx_run(|cx| fut.as_mut().poll(cx)) {
+            let (_, rewind) = r.expect("sniffer over a scripted stream without errors");
+            let mut s = sh.lock().unwrap();
+            s.answers.clear();
+            return Box::new(HyperSubject(rewind));
+        }
+    }
+    panic!("sniffer did not finish within 200 polls");
+}
 
 /// Read-buffer storage. Natively it carries a recognisable pattern (so a wrong `filled` length shows
 /// up as wrong bytes, deterministically); under miri it is genuinely uninitialised, so that an
@@ -486,32 +507,47 @@ struct AdapterDef {
     name: &'static str,
     prefix: &'static [u8],
     build: fn(Shared) -> Box<dyn Subject>,
+    /// what the peer sends (default: INCOMING); the sniffed stacks need a stream that looks like a preface
+    incoming: Option<&'static [u8]>,
 }
 
 fn adapters() -> Vec<AdapterDef> {
     use hyperdriver::stream::TlsBraid;
     vec![
-        AdapterDef { name: "TokioIo<tokio-stream> as hyper Read/Write", prefix: b"", build: |s| Box::new(HyperSubject(TokioIo::new(Sio(s)))) },
-        AdapterDef { name: "TokioIo<hyper-stream> as tokio AsyncRead/AsyncWrite", prefix: b"", build: |s| Box::new(TokioSubject(TokioIo::new(HSio(s)))) },
-        AdapterDef { name: "TokioIo<TokioIo<tokio-stream>> round trip", prefix: b"", build: |s| Box::new(TokioSubject(TokioIo::new(TokioIo::new(Sio(s))))) },
-        AdapterDef { name: "Rewind(prefix len 0)", prefix: b"", build: |s| Box::new(HyperSubject(sniffer::rewind(HSio(s), vec![]))) },
-        AdapterDef { name: "Rewind(prefix len 1)", prefix: b"P", build: |s| Box::new(HyperSubject(sniffer::rewind(HSio(s), b"P".to_vec()))) },
-        AdapterDef { name: "Rewind(prefix len 3)", prefix: b"PQR", build: |s| Box::new(HyperSubject(sniffer::rewind(HSio(s), b"PQR".to_vec()))) },
-        AdapterDef { name: "TlsBraid::NoTls", prefix: b"", build: |s| Box::new(TokioSubject(TlsBraid::<Sio, Sio>::NoTls(Sio(s)))) },
-        AdapterDef { name: "client Stream::new", prefix: b"", build: |s| Box::new(TokioSubject(hyperdriver::client::conn::Stream::new(Sio(s)))) },
-        AdapterDef { name: "server Stream::new", prefix: b"", build: |s| Box::new(TokioSubject(hyperdriver::server::conn::Stream::new(Sio(s)))) },
-        AdapterDef { name: "TokioIo<Rewind<TokioIo<tokio-stream>>> (server stack)", prefix: b"PQR", build: |s| Box::new(TokioSubject(TokioIo::new(sniffer::rewind(TokioIo::new(Sio(s)), b"PQR".to_vec())))) },
+        AdapterDef { name: "TokioIo<tokio-stream> as hyper Read/Write", prefix: b"", build: |s| Box::new(HyperSubject(TokioIo::new(Sio(s)))), incoming: None },
+        AdapterDef { name: "TokioIo<hyper-stream> as tokio AsyncRead/AsyncWrite", prefix: b"", build: |s| Box::new(TokioSubject(TokioIo::new(HSio(s)))), incoming: None },
+        AdapterDef { name: "TokioIo<TokioIo<tokio-stream>> round trip", prefix: b"", build: |s| Box::new(TokioSubject(TokioIo::new(TokioIo::new(Sio(s))))), incoming: None },
+        AdapterDef { name: "Rewind(prefix len 0)", prefix: b"", build: |s| Box::new(HyperSubject(sniffer::rewind(HSio(s), vec![]))), incoming: None },
+        AdapterDef { name: "Rewind(prefix len 1)", prefix: b"P", build: |s| Box::new(HyperSubject(sniffer::rewind(HSio(s), b"P".to_vec()))), incoming: None },
+        AdapterDef { name: "Rewind(prefix len 3)", prefix: b"PQR", build: |s| Box::new(HyperSubject(sniffer::rewind(HSio(s), b"PQR".to_vec()))), incoming: None },
+        AdapterDef { name: "TlsBraid::NoTls", prefix: b"", build: |s| Box::new(TokioSubject(TlsBraid::<Sio, Sio>::NoTls(Sio(s)))), incoming: None },
+        AdapterDef { name: "client Stream::new", prefix: b"", build: |s| Box::new(TokioSubject(hyperdriver::client::conn::Stream::new(Sio(s)))), incoming: None },
+        AdapterDef { name: "server Stream::new", prefix: b"", build: |s| Box::new(TokioSubject(hyperdriver::server::conn::Stream::new(Sio(s)))), incoming: None },
+        // the rewind buffer as the sniffer fills it: the peer's stream starts like the HTTP/2 preface and
+        // arrives in short reads with Pending in between while the sniffer is deciding
+        AdapterDef { name: "sniffed: Rewind filled by the sniffer over short reads with Pending (full preface)", prefix: b"", build: |s| sniffed(s, &[Ans::Read(3), Ans::Pending, Ans::Read(5), Ans::Pending, Ans::Read(1), Ans::Read(usize::MAX)]), incoming: Some(SNIFF_H2) },
+        AdapterDef { name: "sniffed: Rewind filled by the sniffer over short reads with Pending (preface look-alike)", prefix: b"", build: |s| sniffed(s, &[Ans::Read(1), Ans::Pending, Ans::Read(2), Ans::Pending, Ans::Read(usize::MAX)]), incoming: Some(SNIFF_H1) },
+        AdapterDef { name: "TokioIo<Rewind<TokioIo<tokio-stream>>> (server stack)", prefix: b"PQR", build: |s| Box::new(TokioSubject(TokioIo::new(sniffer::rewind(TokioIo::new(Sio(s)), b"PQR".to_vec())))), incoming: None },
     ]
 }
 
 /// Run one operation sequence against one adapter; returns a violation description if the reference disagrees.
 fn run_sequence(ad: &AdapterDef, seq: &[Step], vectored_inner: bool) -> Result<u8, String> {
-    let sh = script(INCOMING, vectored_inner);
+    let incoming: &[u8] = ad.incoming.unwrap_or(INCOMING);
+    let sh = script(incoming, vectored_inner);
     let mut subj = (ad.build)(sh.clone());
+    // bytes the stack consumed while it was being built (the sniffer's reads) are its replay prefix
+    let (dyn_prefix, incoming_rest): (Vec<u8>, &[u8]) = {
+        let mut s = sh.lock().unwrap();
+        let consumed = s.cursor;
+        s.calls.clear();
+        (incoming[..consumed].to_vec(), &incoming[consumed..])
+    };
+    let prefix: Vec<u8> = if ad.incoming.is_some() { dyn_prefix } else { ad.prefix.to_vec() };
     let mut acked: Vec<u8> = vec![]; // bytes the adapter acknowledged as written, in order
     let mut delivered: Vec<u8> = vec![]; // bytes the adapter delivered to the reader, in order
-    let mut source: Vec<u8> = ad.prefix.to_vec();
-    source.extend_from_slice(INCOMING);
+    let mut source: Vec<u8> = prefix.clone();
+    source.extend_from_slice(incoming_rest);
     let mut outcome_class = 0u8;
     for (i, st) in seq.iter().enumerate() {
         let calls_before = sh.lock().unwrap().calls.len();
@@ -621,18 +657,18 @@ fn run_sequence(ad: &AdapterDef, seq: &[Step], vectored_inner: bool) -> Result<u
         if s.received.len() < acked.len() {
             // acknowledged but not (yet) passed on: only legal for a buffering adapter, checked after flush below
         }
-        let consumed = ad.prefix.len().min(delivered.len()) + s.cursor.min(INCOMING.len());
+        let consumed = prefix.len().min(delivered.len()) + s.cursor.min(incoming.len());
         let _ = consumed;
         if !source.starts_with(&delivered) {
             return Err(format!("reader saw bytes that the peer did not send (or out of order): delivered {:?}; {}", delivered, ctx()));
         }
         // nothing the inner stream handed over may be lost: what was taken from the peer == what was delivered beyond the prefix
-        let from_inner = delivered.len().saturating_sub(ad.prefix.len());
+        let from_inner = delivered.len().saturating_sub(prefix.len());
         let inner_gave: usize = s.calls.iter().map(|c| if let Call::Read { gave, .. } = c { *gave } else { 0 }).sum();
-        if inner_gave != from_inner && delivered.len() >= ad.prefix.len() {
+        if inner_gave != from_inner && delivered.len() >= prefix.len() {
             return Err(format!("inner stream handed over {inner_gave} bytes but the reader received {from_inner} beyond the replayed prefix; {}", ctx()));
         }
-        if delivered.len() < ad.prefix.len() && inner_gave > 0 {
+        if delivered.len() < prefix.len() && inner_gave > 0 {
             return Err(format!("inner stream was read before the replayed prefix was drained; {}", ctx()));
         }
     }
